@@ -183,6 +183,9 @@ TWINS = [
     ("mask-bwd-filter", MASK, r"inner_chm.mask\(pre_check\)", "inner_chm.filter(pre_check)"),
     ("switch-retdiffs-rename", SW, r"\bretdiffs\b", "branch_retdiffs"),
     ("hmc-normal-score-closed-form", HMC, r"score = tfd.Normal\(0.0, 1.0\).log_prob\(v\)\n    if score.shape:\n        return jnp.sum\(score\)\n    else:\n        return score", "return -0.5 * (jnp.sum(v**2) + jnp.size(v) * jnp.log(2 * jnp.pi))"),
+    ("adev-cond-key-rename", ADC, r"\bbranch_key\b", "arm_key"),
+    ("static-visit-rename", STATIC, r"\bcommon\b", "shared_len"),
+    ("mask-leading-rename", FT, r"\bextra\b", "missing_axes"),
     ("docstring-edit", SCAN, r"Prepends the initial accumulator value", "Prepends the first accumulator value"),
     ("comment-shift", DIST, r"(class Distribution\(Generic\[R\], GenerativeFunction\[R\]\):)", "# moved comment\n\n\n\\1"),
 ]
